@@ -46,9 +46,12 @@ def _ref_actions(snapshot, span, log_msg, nm):
     return kinds
 
 
+_MNAMES = ["m0", "m0", "m2"]     # the second definition shares the first one's NAME (a counter and a gauge): still two definitions
+
+
 def _metric_defs(nm):
     from deep.api.tracepoint.tracepoint_config import MetricDefinition
-    return [MetricDefinition("m%d" % i, ["COUNTER", "GAUGE"][i % 2]) for i in range(nm)]
+    return [MetricDefinition(_MNAMES[i], ["COUNTER", "GAUGE"][i % 2]) for i in range(nm)]
 
 
 def table(stage: Optional[str], snapshot: Optional[str], span: Optional[str], method_name: Optional[str],
@@ -145,7 +148,7 @@ class InlineTasks:
 
 def _pb_tp(tp_id, path, line, args, nm, watches=()):
     from deepproto.proto.tracepoint.v1.tracepoint_pb2 import TracePointConfig, Metric, MetricType
-    ms = [Metric(name="m%d" % i, type=[MetricType.COUNTER, MetricType.GAUGE][i % 2]) for i in range(nm)]
+    ms = [Metric(name=_MNAMES[i], type=[MetricType.COUNTER, MetricType.GAUGE][i % 2]) for i in range(nm)]
     return TracePointConfig(ID=tp_id, path=path, line_number=line, args=args, watches=list(watches), metrics=ms)
 
 
@@ -239,7 +242,7 @@ def effects(si: int, ni: int, pi: int, mi: int, li: int, nm: int, route: int) ->
             return "C11:effects:snapshot-log-msg"
     elif logs:
         return "C11:effects:log-without-log_msg"
-    if len(mets) != nm or sorted(e[1] for e in mets) != sorted("m%d" % i for i in range(nm)):
+    if len(mets) != nm or sorted(e[1] for e in mets) != sorted(_MNAMES[:nm]):
         return "C11:effects:metric-calls"
     for e in mets:
         if e[0] != ("counter" if e[1] == "m0" else "gauge"):
